@@ -208,7 +208,8 @@ def finish(cx, t0, explain=None):
             continue
         nviol += 1
         path = os.path.join(rp_dir, '%s-%s.json' % (prop, sanitize(ob.key)))
-        json.dump({'property': prop, 'key': ob.key, **ob.to_json()}, open(path, 'w'), indent=1)
+        if not os.environ.get('GMV_NO_EVIDENCE'):
+            json.dump({'property': prop, 'key': ob.key, **ob.to_json()}, open(path, 'w'), indent=1)
         print('%s %s [%s] %s' % (ob.status, ob.key, ob.where, ob.what))
         lines.append('VIOLATION property=%s replay=%s' % (prop, path))
     for l in lines:
@@ -256,6 +257,7 @@ def finish(cx, t0, explain=None):
         'wall_s': round(wall, 2),
         'violations': nviol,
     }
-    json.dump(ev, open(os.path.join(ev_dir, prop + '.json'), 'w'), indent=1)
+    if not os.environ.get('GMV_NO_EVIDENCE'):
+        json.dump(ev, open(os.path.join(ev_dir, prop + '.json'), 'w'), indent=1)
     print('%s: %d obligations, %d held, %d known findings, %d violations (%.1fs)' % (prop, total, held, len(known_hit), nviol, wall))
     return 1 if nviol else 0
